@@ -131,7 +131,7 @@ def cast_terms(tms, b):
     return [(m, c.astype(b)) for m, c in tms]
 
 
-def all_pairs(tier, rng, reps=(1, 3)):
+def all_pairs(tier, rng, reps=(1, 10)):
     for a in DTYPES:
         for b in DTYPES:
             for _ in range(count(tier, *reps)):
@@ -145,7 +145,7 @@ CTORS = ["array", "scalar", "as_array", "attrs", "attrs_clean", "dict", "poly", 
 def gen_from_data(tier, rng):
     for a in DTYPES:
         for ctor in CTORS:
-            for _ in range(count(tier, 2, 8)):
+            for _ in range(count(tier, 2, 20)):
                 const = ctor in ("array", "scalar", "as_array")
                 shape = () if ctor == "scalar" else rng.choice([(3,), (2,)] if ctor in ("compose", "iter") else SHAPES)
                 yield {"ctor": ctor, "p": tspec(rng, a, shape, const=const)}
@@ -229,18 +229,30 @@ def _request(inp):
     return judge(r, cast_terms(tms, b), b, shape)
 
 
-@check("C12", "construct.dtype_request", lambda tier, rng: (i for i in gen_request(tier, rng) if not i["ctor"].startswith("astype")),
-       functions=("numpoly.polynomial", "numpoly.aspolynomial", "numpoly.polynomial_from_attributes",
-                  "numpoly.construct.compose.compose_polynomial_array"),
-       note="bounded: all 196 ordered dtype pairs x 7 routes with dtype= (ndarray, aspolynomial of ndarray/ndpoly, ndpoly, "
-            "attributes, dict, list of polynomials); expected = numpy.array(data, a).astype(b); data restricted to values whose "
-            "C cast a->b is defined and finite")
+def only(*ctors):
+    return lambda tier, rng: (i for i in gen_request(tier, rng) if i["ctor"] in ctors)
+
+
+@check("C12", "construct.dtype_request", only("array", "as_array", "as_poly", "poly", "attrs", "dict"),
+       functions=("numpoly.polynomial", "numpoly.aspolynomial", "numpoly.polynomial_from_attributes"),
+       note="bounded: all 196 ordered dtype pairs x 6 routes with dtype= (ndarray, aspolynomial of ndarray/ndpoly, ndpoly, "
+            "attributes, dict); expected = numpy.array(data, a).astype(b); data (incl. dtype extremes) restricted to values whose "
+            "C cast a->b is defined and finite; <=3 terms, <=2 indeterminates, 5 shapes")
 @quiet
 def dtype_request(inp):
     return _request(inp)
 
 
-@check("C12", "astype.numpy_cast", lambda tier, rng: (i for i in gen_request(tier, rng) if i["ctor"].startswith("astype")),
+@check("C12", "construct.dtype_request_list_of_polynomials", only("compose"),
+       functions=("numpoly.polynomial", "numpoly.construct.compose.compose_polynomial_array"),
+       note="bounded: all 196 ordered dtype pairs, polynomial([p0, p1], dtype=b) with 0-d polynomials of dtype a; same oracle "
+            "and data as construct.dtype_request (values outside b's range must wrap as in numpy's astype)")
+@quiet
+def dtype_request_list(inp):
+    return _request(inp)
+
+
+@check("C12", "astype.numpy_cast", only("astype", "astype_dtype_object"),
        functions=("numpoly.ndpoly.astype", "numpoly.polynomial_from_attributes"),
        note="bounded: all 196 ordered dtype pairs, non-constant operands; expected = column.astype(b)")
 @quiet
@@ -314,7 +326,7 @@ def np_mul(X, Y):
 
 
 def gen_arith(tier, rng):
-    for a, b in all_pairs(tier, rng, (2, 6)):
+    for a, b in all_pairs(tier, rng, (2, 24)):
         sa, sb = broadcastable_pair(rng)
         ka, kb = rng.choice([("poly", "poly"), ("poly", "const"), ("const", "poly"), ("const", "const"), ("poly", "array"),
                              ("array", "poly"), ("const", "array"), ("array", "const"), ("const", "scalar"), ("scalar", "poly")])
@@ -353,7 +365,7 @@ def gen_square(tier, rng):
     for a in DTYPES:
         for kind in ("poly", "const"):
             for via in ("operator", "numpoly.power", "numpoly.square"):
-                for _ in range(count(tier, 1, 4)):
+                for _ in range(count(tier, 1, 12)):
                     yield {"via": via, "x": {"kind": kind, "p": tspec(rng, a, rng.choice(SHAPES), small=True, const=kind == "const")}}
 
 
@@ -393,7 +405,7 @@ SHAPEF = {
 def gen_index(tier, rng):
     for a in DTYPES:
         for f in list(INDEX) + [k for k, v in SHAPEF.items() if v]:
-            for _ in range(count(tier, 1, 3)):
+            for _ in range(count(tier, 1, 8)):
                 shape = rng.choice([(3,), (2, 2), (2, 3)]) if f != "tuple" else rng.choice([(2, 2), (2, 3)])
                 mask = nested(rng, (shape[0],), [True, False])
                 mask[rng.randrange(shape[0])] = True        # masks selecting nothing: see empty.construct
@@ -449,7 +461,7 @@ def gen_cancel(tier, rng):
         for how in CANCEL:
             if how == "astype_to_zero" and numpy.dtype(a).kind not in "fc":
                 continue
-            for _ in range(count(tier, 1, 3)):
+            for _ in range(count(tier, 1, 8)):
                 s = tspec(rng, a, (2,) if how == "diff_equal" else rng.choice(SHAPES), const=how == "derivative_const")
                 n = len(s["exponents"])
                 if how == "set_dimensions":
